@@ -219,6 +219,15 @@ Fixpoint run_a (p : prog) (w : world) : world * result :=
   | Ask k => run_a (k w) w
   end.
 
+(* a refusal inside a call that has already begun would be an internal error, not a refusal of the call *)
+Fixpoint seal (p : prog) : prog :=
+  match p with
+  | Ret (Rejected e) => Ret (Crash EAssertionError)
+  | Ret r => Ret r
+  | Upd u k => Upd u (seal k)
+  | Ask k => Ask (fun w => seal (k w))
+  end.
+
 (* what a caller may offer as a node *)
 Inductive nsrc :=
 | SNode (x : nid)                     (* an existing node object *)
@@ -414,7 +423,7 @@ Definition detach (x : nid) (retain : bool) : prog :=
                        (detach_all kids
                           (match kids with
                            | [] => Ret ROk
-                           | _ => insert_children fall (iid t) (Z.of_nat idx) (map SNode kids)
+                           | _ => seal (insert_children fall (iid t) (Z.of_nat idx) (map SNode kids))
                            end))
                  else Upd (UDetach x) (Ret ROk)
              end
@@ -429,7 +438,7 @@ Section Scripts2.
       match w_parent w x with
       | None => Ret (Rejected EInvalidOperation)
       | Some _ =>
-          prepare x (Some x) src (fun n => Upd (UAddFollowing x n) (detach x false))
+          prepare x (Some x) src (fun n => Upd (UAddFollowing x n) (seal (detach x false)))
       end).
 
   (* index as __getitem__ resolves it *)
